@@ -7,26 +7,6 @@ up to order, with provenance and composition).
 -/
 namespace T4V
 
-/-- Fortran-style real literal (`1.2-4`, `1d3`, `-.5E+2`) → Float -/
-def parseFortran? (s : String) : Option Float :=
-  let cs := s.trimAscii.toString.toList.map Char.toLower
-  -- insert 'e' before a bare exponent sign; map d → e
-  let cs := cs.map fun c => if c == 'd' then 'e' else c
-  let rec fix : List Char → Bool → List Char
-    | [], _ => []
-    | c :: r, first =>
-        if (c == '+' || c == '-') && !first then
-          c :: fix r false
-        else c :: fix r false
-  let _ := fix
-  -- find a sign that is not at position 0 and not right after 'e'
-  let rec ins : List Char → Char → Nat → List Char
-    | [], _, _ => []
-    | c :: r, prev, i =>
-        if (c == '+' || c == '-') && i != 0 && prev != 'e' then 'e' :: c :: ins r c (i + 1)
-        else c :: ins r c (i + 1)
-  parseFloat? (String.ofList (ins cs ' ' 0))
-
 structure Descr where
   /-- `[]` + cell for a level-0 cell, else the provenance chain -/
   cell : Nat
